@@ -1265,8 +1265,10 @@ class FileSet:
                 # match to our path
                 # NB: using posixpath rather than os.path because
                 # AbstractFileSystem objects always work with / not \
+                # (with a trailing separator like the directories found by
+                # _get_matching_dirs: the next level globs for `<dir>*`)
                 search_dirs = [
-                    (posixpath.join(old_dir, subdir_chunk), attr)
+                    (posixpath.join(old_dir, subdir_chunk, ""), attr)
                     for old_dir, attr in search_dirs
                 ]
                 continue
